@@ -20,6 +20,12 @@ try:
     for item in ("src", "Cargo.toml", "Cargo.lock", "benches", "examples", "tests"):
         s = os.path.join("/repo", item)
         (shutil.copytree if os.path.isdir(s) else shutil.copy)(s, os.path.join(d, item))
+    def touch_all():
+        now = time.time()
+        for root, _, files in os.walk(d):
+            for f in files:
+                os.utime(os.path.join(root, f), (now, now))
+    touch_all()
     meta = {"id": sid, "property": prop, "source": "independent sub-agent given only the property text and a scratch worktree", "ran": []}
     # demo on the clean tree
     shutil.copy(os.path.join(sd, "demo.rs"), os.path.join(d, "tests", "seed_demo.rs"))
@@ -30,6 +36,8 @@ try:
     r = sh(["git", "apply", "--check", os.path.join(sd, "patch.diff")]) if False else sh(["patch", "-p1", "-s", "-i", os.path.join(sd, "patch.diff")])
     if r.returncode != 0:
         print("PATCH DOES NOT APPLY", r.stdout); sys.exit(3)
+    time.sleep(1.1)
+    touch_all()
     code, oks, out = suite(d)
     passed = sum(int(o[1]) for o in oks); failed = sum(int(o[2]) for o in oks)
     meta["ran"].append("patched tree: cargo test --offline -> %d passed, %d failed (exit %d)" % (passed, failed, code))
